@@ -79,6 +79,55 @@ IR_ENTRIES = ["emit_all"]
 
 TOKENS = ["`", "(", ")", ".", ",", ";", "'", "[", "]", " or ", " of ", "List", "None", "__import__", SENT]
 
+# route docstrings carry a YAML (or JSON) block that the bottle/openapi parsers load: YAML's python-specific tags are the way such a block names code
+YAML_PAYLOADS = OrderedDict(
+    (
+        ("apply_mkdir", "!!python/object/apply:os.mkdir [c17mark]"),
+        ("apply_sentinel", "!!python/object/apply:%s.touch []" % SENT),
+        ("new_sentinel", "!!python/object/new:%s.touch []" % SENT),
+        ("module_tag", "!!python/module:%s" % SENT),
+        ("name_tag", "!!python/name:%s.touch" % SENT),
+        ("object_tag", "!!python/object:%s.touch {}" % SENT),
+        ("tuple_tag", "!!python/tuple [1, 2]"),
+        ("py_import_call", "__import__('%s')" % SENT),
+        ("py_exec_str", "exec('import %s')" % SENT),
+    )
+)
+YAML_SLOTS = ["response_description", "top_level_value", "nested_key", "whole_block", "json_block_value"]
+ROUTE_ENTRIES = ["bottle_parse", "openapi_parse", "openapi_bulk_files", "fastapi_parse"]
+ROUTE_TPL = '''@rest_api.get("/api/config/:dataset_name")
+def read(dataset_name):
+    """
+    Find one Config
+
+    ```yml
+{block}
+    ```
+
+    :param dataset_name: Primary key
+    """
+    return dataset_name
+'''
+MODEL_SRC = '''class Config(Base):
+    """Config table"""
+
+    __tablename__ = "config"
+
+    dataset_name = Column(String, primary_key=True)
+'''
+
+
+def yaml_block(slot, p):
+    if slot == "response_description":
+        return "responses:\n  '200':\n    description: %s\n  '404':\n    description: Config not found" % p
+    if slot == "top_level_value":
+        return "summary: %s\nresponses:\n  '404':\n    description: Config not found" % p
+    if slot == "nested_key":
+        return "responses:\n  ? %s\n  : description: Config not found" % p
+    if slot == "whole_block":
+        return p
+    return '{"responses": {"404": {"description": %s}}}' % __import__("json").dumps(p)
+
 
 def cases(tier, seed):
     for entry, slot, (pk, p), (qk, q), style in itertools.product(DOC_ENTRIES, DOC_SLOTS, PAYLOADS.items(), QUOTES, ("rest", "google", "numpydoc")):
@@ -92,6 +141,10 @@ def cases(tier, seed):
         yield dict(kind="ir", entry="emit_all", slot=slot, payload=pk, quote=qk)
     for (pk, p), (qk, q) in itertools.product(PAYLOADS.items(), QUOTES[:2]):
         yield dict(kind="json_schema", entry="json_schema_parse", slot="description_default", payload=pk, quote=qk)
+    for entry, slot, pk in itertools.product(ROUTE_ENTRIES, YAML_SLOTS, YAML_PAYLOADS):
+        if entry == "fastapi_parse" and slot != "response_description":
+            continue
+        yield dict(kind="route", entry=entry, slot=slot, payload=pk)
     yield dict(kind="control", entry="sync_properties_input_eval")
     yield dict(kind="control", entry="gen_prepend")
     # bounded-exhaustive probe of the character whitelist in front of the type-name eval
@@ -123,6 +176,15 @@ def worker_init(tier, seed):
     import cdd.sqlalchemy.parse  # noqa
     import cdd.pydantic.parse  # noqa
     import cdd.json_schema.parse  # noqa
+    import cdd.compound.openapi.gen_openapi  # noqa
+    import cdd.routes.parse.bottle  # noqa
+    import cdd.routes.parse.fastapi  # noqa
+
+    try:  # one benign route through the YAML loader, so that its first-use imports are not attributed to a case
+        with redirect_stdout(io.StringIO()), redirect_stderr(io.StringIO()):
+            cdd.routes.parse.bottle.bottle(ast.parse(ROUTE_TPL.format(block="    responses:\n      '404':\n        description: Config not found")).body[0])
+    except Exception:
+        pass
 
 
 def _main(argv):
@@ -349,6 +411,8 @@ def run(case):
             return dict(outcome="replay", transitions=1, violations=vs)
         if case["kind"] == "control":
             return run_control(case, d)
+        if case["kind"] == "route":
+            return run_route(case, d)
         p = PAYLOADS[case["payload"]].replace("c17mark", repr(os.path.join(d, "c17mark")))
         markers = [SENT, "c17x", "c17mark", "c17y", "c17i"] + (["exit", "os.system"] if case["payload"] in NAME_ONLY else [])
         ctx = dict(check="no_execution", entry=case["entry"], slot=case["slot"], payload=case["payload"])
@@ -391,6 +455,53 @@ def run(case):
     finally:
         shutil.rmtree(d, ignore_errors=True)
     return dict(outcome="+".join(sorted(outcomes)) or "none", transitions=transitions, violations=viol, extra=extra)
+
+
+def run_route(case, d):
+    """a route whose docstring block (YAML or JSON) names code, through the route/OpenAPI parsers"""
+    import cdd.compound.openapi.gen_openapi
+    import cdd.compound.openapi.parse
+    import cdd.routes.parse.bottle
+    import cdd.routes.parse.fastapi
+
+    p = YAML_PAYLOADS[case["payload"]].replace("c17mark", repr(os.path.join(d, "c17mark")))
+    block = yaml_block(case["slot"], p)
+    ctx = dict(check="no_execution", entry=case["entry"], slot=case["slot"], payload=case["payload"])
+    allowed = set()
+    if case["entry"] == "fastapi_parse":
+        # FastAPI routes carry their responses as a decorator keyword (code, not YAML): the payload sits where a model/description expression goes
+        src = '@app.get("/api/config", responses={404: {"model": %s, "description": "x"}})\ndef read():\n    return 1\n' % ('"%s"' % p.replace('"', "'") if p.startswith("!!") else p)
+        try:
+            node = ast.parse(src).body[0]
+        except SyntaxError:
+            return dict(outcome="not-applicable", transitions=0, nontrivial=False, violations=[])
+        thunk = lambda: cdd.routes.parse.fastapi.fastapi(node)  # noqa
+    else:
+        src = ROUTE_TPL.format(block="\n".join("    " + l for l in block.split("\n")))
+        if case["entry"] == "bottle_parse":
+            node = ast.parse(src).body[0]
+            thunk = lambda: cdd.routes.parse.bottle.bottle(node)  # noqa
+        elif case["entry"] == "openapi_parse":
+            thunk = lambda: cdd.compound.openapi.parse.openapi(block, {"route": "/api/config/:dataset_name", "name": "rest_api", "method": "get"}, "Find one Config")  # noqa
+        else:
+            rp, mp = os.path.join(d, "routes.py"), os.path.join(d, "models.py")
+            with open(rp, "wt") as f:
+                f.write(src)
+            with open(mp, "wt") as f:
+                f.write(MODEL_SRC)
+            thunk = lambda: cdd.compound.openapi.gen_openapi.openapi_bulk(app_name="rest_api", model_paths=[mp], routes_paths=[rp])  # noqa
+    outcome = "returns"
+    with effects.Recording() as ev:
+        try:
+            thunk()
+        except SystemExit:
+            outcome = "exits"
+        except Exception:
+            outcome = "raises"
+    vs, ne = judge(list(ev), allowed, d, ctx, [SENT, "c17mark"])
+    if os.path.isdir(os.path.join(d, "c17mark")):
+        pass  # already reported by judge() as marker_file_created
+    return dict(outcome=outcome, transitions=1, violations=vs, extra=dict(names_evaluated=ne))
 
 
 def run_emitters(slot, p):
@@ -452,10 +563,11 @@ def run_control(case, d):
 def describe(tier):
     return dict(
         rule="targeted: {de} docstring entry points x 6 docstring slots x {p} payloads x 3 quotings (x 3 styles for the docstring parser); {ce} code entry points x "
-        "5 code slots x {p} payloads; all emitters on interfaces whose doc/default/typ are payloads; json_schema parse; 2 positive controls; exhaustive: every "
+        "5 code slots x {p} payloads; all emitters on interfaces whose doc/default/typ are payloads; json_schema parse; {re} route/OpenAPI entry points (bottle route parser, openapi parser, openapi_bulk on files, "
+        "FastAPI route parser) x {ys} places in the route docstring's YAML/JSON block x {yp} YAML payloads (python-specific tags that name callables/modules, and Python call text); 2 positive controls; exhaustive: every "
         "description of <= {n} tokens over a 15-token whitelist-probing alphabet through docstring.parse; a case = one call under the audit hook".format(
-            de=len(DOC_ENTRIES), ce=len(CODE_ENTRIES), p=len(PAYLOADS), n=3 if tier == "quick" else 4),
-        bounds=dict(payloads=dict(PAYLOADS), doc_slots=DOC_SLOTS, code_slots=CODE_SLOTS, tokens=TOKENS),
+            de=len(DOC_ENTRIES), ce=len(CODE_ENTRIES), p=len(PAYLOADS), n=3 if tier == "quick" else 4, re=len(ROUTE_ENTRIES), ys=len(YAML_SLOTS), yp=len(YAML_PAYLOADS)),
+        bounds=dict(payloads=dict(PAYLOADS), yaml_payloads=dict(YAML_PAYLOADS), yaml_slots=YAML_SLOTS, route_entries=ROUTE_ENTRIES, doc_slots=DOC_SLOTS, code_slots=CODE_SLOTS, tokens=TOKENS),
         exhaustive=True,
         explanation="names_evaluated counts executions of string-compiled code derived from input text that only loaded names/attributes (what the type probe does today); "
         "they are reported, not violations",
